@@ -3,6 +3,8 @@ import GqlProofs.ValSpec.Stateful
 import GqlProofs.ValSpec.Spreads
 import GqlProofs.ValSpec.KnownDirs
 import GqlProofs.ValSpec.LeafFrag
+import GqlProofs.Validate.OverlapSound
+import GqlProofs.Validate.OverlapWitness
 /-
   C08 — validation accepts exactly what the rules allow.
 
@@ -285,3 +287,170 @@ theorem C08_default_LoneAnonymousOperation (s : Schema) (d : QueryDoc) (errs : L
   constructor
   · intro h; rw [h]
   · intro h; injection h
+
+
+/-! ## OverlappingFieldsCanBeMerged -/
+
+/-
+  C08 — validation accepts exactly what the rules allow: the part about
+  OverlappingFieldsCanBeMerged (the repaired algorithm: `sameValue` compares children, R8g;
+  `doTypesConflict` lets a leaf type conflict with every other type, R8h).
+
+  Full statement (NOT proved — completeness is explored against the executable naive spec by the
+  harness, DESIGN C08):
+
+      theorem C08_Overlapping (s : Schema) (d : QueryDoc) (hs : Closed s) (hc : NoFragmentCycles d) :
+          ruleErrors overlappingFieldsCanBeMerged s d = [] ↔ FieldSelectionMerging s d
+
+  Proved here: SOUNDNESS of every reported conflict (`C08_overlap_sound_partial`) — each error of
+  the rule is the rendering of a conflict tree in which every leaf names two field nodes of the
+  document (of the selection set the observer was called for, or of a fragment definition) with the
+  same response name, and
+    * a "different fields" / "differing arguments" leaf only occurs where neither the two fields
+      nor any enclosing pair of fields was found to be mutually exclusive (two different Object
+      parent types), the field names differ / are equal and the arguments are not identical in the
+      sense of `ArgsSame` — exactly the situations in which §5.3.2 FieldsInSetCanMerge demands
+      equal names and identical arguments, so no spec-valid document is rejected by these branches;
+    * a "conflicting types" leaf only occurs where both field definitions are known and
+      `doTypesConflict` holds of the two declared types.
+  Missing for the full statement: that the two fields of a nested leaf are reachable from the two
+  enclosing fields (sub-selections followed through spreads), that `doTypesConflict` is the
+  negation of SameResponseShape's type test (it ignores the nullability of list types:
+  `[Int]!` vs `[Int]` do not conflict — a deviation from §5.3.2 visible in the definition), and
+  completeness.
+-/
+open Gql Gql.Validate Gql.Validate.Rules
+
+/-- Every conflict reported by one observer call (`findConflictsWithinSelectionSet`) is sound. -/
+theorem C08_overlap_sound_partial (s : SV) (d : QueryDoc) (l : Links) (parent : Option Definition)
+    (sels : Selections) (P P' : Pairs) (cs : List Conflict)
+    (h : overlapRun s d l parent sels P = some (P', cs)) :
+    ∀ c ∈ cs, Sound s (univOf d sels) false c :=
+  overlapRun_sound s d l parent sels P (P', cs) h
+
+/-- … hence every error the rule adds is the rendering (`Conflict.toErr`: message, single location
+    `At(m.Position)`) of a sound conflict. -/
+theorem C08_overlap_errors_sound (s : SV) (d : QueryDoc) (P P' : Pairs) (e : Event) (errs : List RErr)
+    (h : overlappingFieldsStep s d P e = .ok P' errs) :
+    errs = [] ∨ ∃ (sels : Selections) (cs : List Conflict), errs = cs.map Conflict.toErr ∧ ∀ c ∈ cs, Sound s (univOf d sels) false c := by
+  have run : ∀ (parent : Option Definition) (sels : Selections),
+      (match overlapRun s d e.links parent sels P with
+        | none => StepOut.panic overlapOutOfFuel
+        | some (P', cs) => StepOut.ok P' (cs.map Conflict.toErr)) = .ok P' errs →
+      errs = [] ∨ ∃ (sels : Selections) (cs : List Conflict), errs = cs.map Conflict.toErr ∧ ∀ c ∈ cs, Sound s (univOf d sels) false c := by
+    intro parent sels h
+    cases hr : overlapRun s d e.links parent sels P with
+    | none => rw [hr] at h; cases h
+    | some r =>
+      obtain ⟨P1, cs⟩ := r
+      rw [hr] at h
+      simp only at h
+      injection h with h1 h2
+      exact Or.inr ⟨sels, cs, h2.symm, C08_overlap_sound_partial s d e.links parent sels P P1 cs hr⟩
+  unfold overlappingFieldsStep at h
+  simp only at h
+  split at h
+  · exact run _ _ h
+  · split at h
+    · injection h with _ h2; exact Or.inl h2.symm
+    · exact run _ _ h
+  · exact run _ _ h
+  · exact run _ _ h
+  · injection h with _ h2; exact Or.inl h2.symm
+
+theorem msgConflictingTypes_head (X : Bytes) : (msgConflictingTypes ++ X).head? = some 116 := by
+  have : msgConflictingTypes = 116 :: msgConflictingTypes.tail := by decide
+  rw [this]
+  rfl
+
+/-- A reported `"x" and "y" are different fields` (a leaf whose message starts with `"`): the
+    document contains two field nodes with that response name and different field names, and
+    neither they nor any enclosing pair were found to lie on two different Object types. -/
+theorem C08_overlap_different_fields_sound (s : SV) (U : Univ) (pe : Bool) (rn msg : Bytes) (pos : Pos)
+    (h : Sound s U pe (.mk rn msg [] pos)) (hq : msg.head? = some 34) :
+    ∃ a b, Good U a ∧ Good U b ∧ responseName a.node = rn ∧ responseName b.node = rn ∧
+      a.node.name ≠ b.node.name ∧ pe = false ∧ goExcl a b = false ∧ pos = b.node.pos ∧
+      msg = dq a.node.name ++ andSep ++ dq b.node.name ++ msgDifferentFields := by
+  cases h with
+  | differentFields ha hb hrn hpe hex hne => exact ⟨_, _, ha, hb, rfl, hrn.symm, hne, hpe, hex, rfl, rfl⟩
+  | differingArguments => exact absurd hq (by decide)
+  | conflictingTypes =>
+    simp only [typesConflictMsg, List.append_assoc] at hq
+    rw [msgConflictingTypes_head] at hq
+    exact absurd hq (by decide)
+
+/-- A reported "they have differing arguments": two field nodes with that response name and the
+    same field name whose argument lists are not identical (`ArgsSame`), not known to be exclusive. -/
+theorem C08_overlap_differing_arguments_sound (s : SV) (U : Univ) (pe : Bool) (rn : Bytes) (pos : Pos)
+    (h : Sound s U pe (.mk rn msgDifferingArguments [] pos)) :
+    ∃ a b, Good U a ∧ Good U b ∧ responseName a.node = rn ∧ responseName b.node = rn ∧
+      a.node.name = b.node.name ∧ pe = false ∧ goExcl a b = false ∧ pos = b.node.pos ∧
+      ¬ ArgsSame a.node.args b.node.args := by
+  generalize hm : msgDifferingArguments = msg at h
+  cases h with
+  | differentFields ha hb hrn hpe hex hne =>
+    have := congrArg List.head? hm
+    simp only [dq, List.cons_append, List.head?_cons] at this
+    exact absurd this (by decide)
+  | differingArguments ha hb hrn hpe hex hn hargs => exact ⟨_, _, ha, hb, rfl, hrn.symm, hn, hpe, hex, rfl, hargs⟩
+  | conflictingTypes =>
+    have h6 := congrArg (List.take 6) hm
+    have e1 : msgConflictingTypes = str "they r" ++ str "eturn conflicting types " := by rfl
+    simp only [typesConflictMsg, e1, List.append_assoc] at h6
+    rw [List.take_left' (by rfl)] at h6
+    exact absurd h6 (by decide)
+
+/-- A reported "they return conflicting types": both field definitions are known and
+    `doTypesConflict` holds of the declared types that the message prints. -/
+theorem C08_overlap_conflicting_types_sound (s : SV) (U : Univ) (pe : Bool) (rn msg : Bytes) (pos : Pos)
+    (h : Sound s U pe (.mk rn msg [] pos)) (hq : msg.take 6 = str "they r") :
+    ∃ a b da db, Good U a ∧ Good U b ∧ responseName a.node = rn ∧ responseName b.node = rn ∧
+      a.dfn = some da ∧ b.dfn = some db ∧ doTypesConflict s da.type db.type = true ∧ pos = b.node.pos ∧
+      msg = typesConflictMsg da.type db.type := by
+  cases h with
+  | differentFields =>
+    have := congrArg List.head? hq
+    simp only [dq, List.cons_append, List.take_succ_cons, List.head?_cons] at this
+    exact absurd this (by decide)
+  | differingArguments => exact absurd hq (by decide)
+  | conflictingTypes ha hb hrn hda hdb hc => exact ⟨_, _, _, _, ha, hb, rfl, hrn.symm, hda, hdb, hc, rfl, rfl⟩
+
+/-- `sameArguments` decides `ArgsSame`, `sameValue` decides `ValSame` (order-insensitive for the
+    fields of input objects and for arguments, ordered for list items; kinds and raw text equal). -/
+theorem C08_overlap_sameArguments_spec (as bs : List Argument) : sameArguments as bs = true ↔ ArgsSame as bs :=
+  sameArguments_iff as bs
+
+theorem C08_overlap_sameValue_spec (v1 v2 : Value) : sameValue v1 v2 = true ↔ ValSame v1 v2 :=
+  sameValue_iff v1 v2
+
+/-- The "differing arguments" branch never fires on two argument lists with the same text
+    (argument by argument, equal up to source positions) whose object literals have pairwise distinct
+    field names (which UniqueInputFieldNames demands): identical fields are never reported. -/
+theorem C08_overlap_identical_arguments_accepted (as bs : List Argument)
+    (hu : ∀ a ∈ as, UniqueFields a.value)
+    (he : as.map (fun a => (a.name, eraseV a.value)) = bs.map (fun b => (b.name, eraseV b.value))) :
+    sameArguments as bs = true :=
+  sameArguments_of_erase_eq as bs hu he
+
+/-- non-vacuity, kernel-checked: `{ a: id a: u { id } }` is rejected with exactly this error … -/
+example : validate [overlappingFieldsCanBeMerged] OverlapWitness.schema OverlapWitness.docDifferent =
+    .ok [{ rule := str "OverlappingFieldsCanBeMerged",
+           msg := str "Fields \"a\" conflict because \"id\" and \"u\" are different fields. Use different aliases on the fields to fetch both if this was intentional.",
+           locs := [(1, 9)] }] := by
+  decide +kernel
+
+/-- … and `{ u { a: id } u { a: x } }` with a nested conflict -/
+example : validate [overlappingFieldsCanBeMerged] OverlapWitness.schema OverlapWitness.docNested =
+    .ok [{ rule := str "OverlappingFieldsCanBeMerged",
+           msg := str "Fields \"u\" conflict because subfields \"a\" conflict because \"id\" and \"x\" are different fields. Use different aliases on the fields to fetch both if this was intentional.",
+           locs := [(1, 15)] }] := by
+  decide +kernel
+
+#print axioms C08_overlap_sound_partial
+#print axioms C08_overlap_identical_arguments_accepted
+#print axioms C08_overlap_errors_sound
+#print axioms C08_overlap_different_fields_sound
+#print axioms C08_overlap_differing_arguments_sound
+#print axioms C08_overlap_conflicting_types_sound
+#print axioms C08_overlap_sameArguments_spec
+#print axioms C08_overlap_sameValue_spec
